@@ -123,6 +123,9 @@ func isString(t types.Type) bool {
 }
 
 func (e *Exec) zero(t types.Type) Value {
+	if n, ok := t.(*types.Named); ok && n.Obj().Pkg() != nil && n.Obj().Pkg().Path() == "reflect" && n.Obj().Name() == "Value" {
+		return &RValue{} // the invalid reflect.Value (model of package reflect, call.go)
+	}
 	switch u := t.Underlying().(type) {
 	case *types.Basic:
 		switch {
